@@ -215,7 +215,10 @@ def renderings(d):
     buf = io.BytesIO(); d.save(buf); buf.seek(0)
     z = zipfile.ZipFile(buf)
     for n in z.namelist():
-        if n.endswith('.xml'):
+        # only the members the library itself PRODUCES (the parts and the manifest, also of embedded objects); other
+        # .xml members are opaque files carried over from a loaded package, not "XML the library emits"
+        if n == 'META-INF/manifest.xml' or n.rsplit('/', 1)[-1] in ('content.xml', 'styles.xml', 'meta.xml', 'settings.xml') \
+                and (n.count('/') == 0 or n.startswith('Object ')):
             out['zip:' + n] = z.read(n)
     return out
 
@@ -304,6 +307,42 @@ def documents_check(chk, want_identity, n=None, drv=None):
                 if not body or X.sort_attrs(body[0]) != exp:
                     sig = 'discouraged-codepoint' if body and X.canon(X.walk(d.body), repl=hu_like) == X.sort_attrs(body[0]) else 'tree-changed:' + name
                     chk.fail(sig, {'doc': i, 'seed': chk.seed, 'rendering': name}, str(X.first_diff(X.sort_attrs(body[0]), exp)) if body else 'no body')
+
+
+def loaded_samples_check(chk, want_identity=False):
+    """trees obtained by load(): every sample package of the repository is loaded and all its renderings must be
+    well-formed (C01); with want_identity the flat rendering must parse back to the loaded tree (C02)"""
+    import glob
+    from odf.opendocument import load
+    files = sorted(glob.glob(os.path.join(common.REPO, 'tests', 'examples', '*.od?')) + glob.glob(os.path.join(common.REPO, 'samples', '*.od?'))
+                   + glob.glob(os.path.join(common.REPO, 'examples', '*.od?')))
+    if chk.tier == 'quick':
+        chk.rng.shuffle(files); files = sorted(files[:12])
+    for path in files:
+        name = os.path.basename(path)
+        try:
+            d = load(path)
+        except Exception as e:      # refusing a package (DOCTYPE, C13) is not a rendering matter
+            chk.count('sample_not_loadable'); continue
+        try:
+            rs = renderings(d)
+        except UnicodeEncodeError as e:
+            chk.fail('not-encodable:loaded', {'sample': name}, repr(e)); continue
+        except Exception as e:
+            chk.fail('rendering-raises:loaded', {'sample': name}, repr(e)); continue
+        for rname, data in sorted(rs.items()):
+            chk.case(('sample', name, rname)); chk.count('loaded_renderings')
+            if isinstance(data, str):
+                data = data.encode('utf-8')
+            try:
+                tree = X.expat_parse(data)
+            except xml.parsers.expat.ExpatError as e:
+                chk.fail('not-wellformed:loaded:' + rname, {'sample': name, 'rendering': rname}, '%s: %r' % (e, data[:200])); continue
+            if want_identity and rname == 'xml()':
+                exp = X.canon(X.walk(d.topnode)); got = X.sort_attrs(tree)
+                if got != exp:
+                    sig = 'discouraged-codepoint' if X.canon(X.walk(d.topnode), repl=hu_like) == got else 'tree-changed:loaded'
+                    chk.fail(sig, {'sample': name, 'rendering': rname}, str(X.first_diff(got, exp)))
 
 
 def tableless_kwargs_check(chk):
